@@ -72,6 +72,9 @@ func c04Base(r *fw.Rand, m wkbMode) ([]byte, []ref.Field, *model.G) {
 		g := c04SmallModel(r)
 		if m.o.EWKB {
 			g.SRID = []int{0, 0, 4326, 1 << 31}[r.Intn(4)]
+			if g.Kind == model.Collection && r.Chance(1, 3) {
+				memberSRIDs(r, g)
+			}
 		}
 		b, f, err := ref.WriteWKB(g, m.o)
 		if err == nil {
